@@ -24,7 +24,7 @@ func newPoolGen(r *core.Rand, world int) *poolGen {
 	pg := &poolGen{s: s, w: getWorld(world), r: r, used: map[int]bool{}, fpks: map[int64]bool{}}
 	s.addr = r.Bool()
 	s.upd = r.Bool()
-	s.pb = r.Chance(1, 6)
+	s.pb = r.Chance(1, 8)
 	s.nc = r.Chance(1, 8)
 	if s.pb && r.Chance(1, 4) {
 		s.uc = true
@@ -364,7 +364,7 @@ func (P) Generate(g *core.Gen) {
 }
 
 func genIndependent(g *core.Gen) {
-	for c := 0; c < g.N(40, 300); c++ {
+	for c := 0; c < g.N(20, 300); c++ {
 		pg := newPoolGen(g.R, c%2)
 		pg.randomPool(poolOpts{n: 1 + g.R.Intn(8), childProb: 0, maxFee: 50000, zeroFeePct: 10, anyKind: true})
 		s := pg.finish(true)
@@ -373,7 +373,7 @@ func genIndependent(g *core.Gen) {
 }
 
 func genPools(g *core.Gen) {
-	for c := 0; c < g.N(240, 1500); c++ {
+	for c := 0; c < g.N(130, 1500); c++ {
 		world := 0
 		if g.R.Chance(1, 4) {
 			world = 1
@@ -417,7 +417,7 @@ func genLocks(g *core.Gen) {
 				s := pg.finish(true)
 				g.Case("locks", true, s.line())
 				// and one transaction at a time (so that a failing self-check is attributable)
-				if g.Thorough() || !am {
+				if g.Thorough() || (!am && !slow) || (am && slow && world == 0) {
 					for i := range s.txs {
 						one := *s
 						one.txs = []txSpec{s.txs[i]}
@@ -458,7 +458,7 @@ func predictedOrder(s *scenario) []int {
 // the running weight after each prefix of the fee order, with and without the
 // witness-commitment reservation in play.
 func genWeightLimits(g *core.Gen) {
-	for c := 0; c < g.N(100, 500); c++ {
+	for c := 0; c < g.N(60, 500); c++ {
 		pg := newPoolGen(g.R, 0)
 		wit := c%3 != 0
 		pg.randomPool(poolOpts{n: 3 + g.R.Intn(8), childProb: g.R.Intn(40), maxFee: 80000, zeroFeePct: 10, anyKind: wit})
@@ -538,7 +538,7 @@ func genSigopLimits(g *core.Gen) {
 // genPriority: a high-priority area of varying size; old, large inputs give
 // priorities above MinHighPriority, fresh small ones below.
 func genPriority(g *core.Gen) {
-	for c := 0; c < g.N(100, 500); c++ {
+	for c := 0; c < g.N(60, 500); c++ {
 		pg := newPoolGen(g.R, 0)
 		n := 3 + g.R.Intn(8)
 		for i := 0; i < n; i++ {
@@ -582,7 +582,7 @@ func genPriority(g *core.Gen) {
 // genReorg: the tip right after a reorganisation; part of the pool spends
 // outputs that only existed on the abandoned branch.
 func genReorg(g *core.Gen) {
-	for c := 0; c < g.N(40, 300); c++ {
+	for c := 0; c < g.N(25, 300); c++ {
 		pg := newPoolGen(g.R, c%2)
 		f := worldBlocks - 1 - g.R.Intn(12)
 		k := worldBlocks - f + 1 + g.R.Intn(3)
@@ -614,7 +614,7 @@ func genReorg(g *core.Gen) {
 // genRealPool: a real mempool.TxPool as the source (map order, so only pools
 // whose keys are pairwise distinct).
 func genRealPool(g *core.Gen) {
-	for c := 0; c < g.N(100, 500); c++ {
+	for c := 0; c < g.N(60, 500); c++ {
 		pg := newPoolGen(g.R, c%2)
 		pg.s.src = "pool"
 		if g.R.Chance(1, 3) {
@@ -681,7 +681,7 @@ func genDishonest(g *core.Gen) {
 // deterministic stub and nothing is released in pairs, so the pop order is
 // fixed by container/heap's sift rules alone.
 func genTies(g *core.Gen) {
-	for c := 0; c < g.N(60, 300); c++ {
+	for c := 0; c < g.N(40, 300); c++ {
 		pg := newPoolGen(g.R, 0)
 		n := 2 + g.R.Intn(8)
 		fp := g.R.Range(0, 3000)
@@ -775,7 +775,7 @@ func genSegwitInactive(g *core.Gen) {
 // above the running weight before / after each transaction in fee order, the
 // fee-rate threshold splits the pool at a random rank, the maximum is far away.
 func genFreeArea(g *core.Gen) {
-	for c := 0; c < g.N(80, 400); c++ {
+	for c := 0; c < g.N(50, 400); c++ {
 		pg := newPoolGen(g.R, 0)
 		pg.randomPool(poolOpts{n: 3 + g.R.Intn(7), childProb: g.R.Intn(30), maxFee: 80000, zeroFeePct: 20, anyKind: c%2 == 0})
 		s := pg.finish(true)
@@ -854,7 +854,7 @@ func genMinHighEdge(g *core.Gen) {
 // clause does not hold here - the tip moved backwards - but every other clause
 // does.)
 func genStalePool(g *core.Gen) {
-	for c := 0; c < g.N(40, 300); c++ {
+	for c := 0; c < g.N(25, 300); c++ {
 		pg := newPoolGen(g.R, c%2)
 		pg.s.src = "pool"
 		// build the pool against the main tip ...
@@ -901,7 +901,7 @@ func genStalePool(g *core.Gen) {
 // genTwo: two templates in a row (thorough: also concurrently) from pools that
 // differ in their witness transactions; the earlier one must stay intact.
 func genTwo(g *core.Gen) {
-	for c := 0; c < g.N(40, 300); c++ {
+	for c := 0; c < g.N(25, 300); c++ {
 		pg := newPoolGen(g.R, 0)
 		pg.s.two = true
 		pg.s.pb = true
@@ -935,7 +935,7 @@ func genTwo(g *core.Gen) {
 
 // genPar: eight complete cases per line, run concurrently on separate chains.
 func genPar(g *core.Gen) {
-	for c := 0; c < g.N(4, 40); c++ {
+	for c := 0; c < g.N(3, 40); c++ {
 		var parts []string
 		for i := 0; i < 8; i++ {
 			pg := newPoolGen(g.R, i%2)
@@ -1126,7 +1126,7 @@ func genConsensusWeight(g *core.Gen) {
 // lock must make the final self-check refuse the template; the real pool only
 // admits met ones.
 func genSeqLocks(g *core.Gen) {
-	for c := 0; c < g.N(60, 400); c++ {
+	for c := 0; c < g.N(45, 400); c++ {
 		world := 0
 		if c%5 == 4 {
 			world = 1
